@@ -72,6 +72,15 @@ def streams(tier):
     out.append(('v:py 3blk', bz2.compress(inputs.kind('N', 250000), 1)))
     return out
 
+def _nthr(c):
+    """threads of a cell: main, reader, writer and W workers; the copy pipeline has no workers"""
+    if any(a in ('-cdf',) for a in c.args) and c.leg.startswith('copy'):
+        return 3
+    for a in c.args:
+        if a.startswith('-n') and a[2:].isdigit():
+            return int(a[2:]) + 3
+    return 99
+
 def run(tier):
     chk = common.Check('C10', LEVEL, tier, quick_deadline=170, thorough_deadline=1600)
     quick = tier == 'quick'
@@ -139,6 +148,7 @@ def run(tier):
                     env['LBZIP2_VERIF_OUT_GRANUL'] = '40'       # bogus blocks that fill several output buffers
                 ex.add('schedules', 'fast', ['-d', '-n%d' % W], data, orc, '%s W=%d in_granul=%d%s' % (name, W, ig, ' out_granul=40' if len(env) > 1 else ''),
                        {'setenv': env})
+    ex.run_priorities(_nthr, cells=[c for c in ex.cells if _nthr(c) <= (5 if quick else 6)])
     done = 0
     for d in range(1, (2 if quick else 3) + 1):
         if not ex.run_pass(d):
